@@ -137,10 +137,24 @@ def check_state(C, ents, created):
                     bad(f"find_one-on-empty-result/{fn}", [s, getattr(one, "uri", one), one_s], "empty Sid / None")
     # relational statements on Sids
     cand = candidates(C, ents, st)
+    out += check_relations(ref, C["prs"][c0], st, cand)
+    return out
+
+
+def check_relations(ref, pr, st, cand):
+    """exists / children / siblings / leaf / parent statements for every candidate Sid against the reference store."""
+    from spil import Sid
+    out = []
+
+    def bad(sig, obs, exp):
+        out.append(dict(signature=sig, observed=obs, expected=exp))
+
     E_all = {c for c in cand if st.exists_all(c)}
 
     def parent_of(s):
-        return "/".join(s.split("/")[:-1]) if "/" in s else s
+        # one-field Sids are the roots: they are each other's siblings (children of the implicit root), although
+        # Sid.parent of a root is the root itself
+        return "/".join(s.split("/")[:-1]) if "/" in s else ""
 
     probe = sorted(cand) + ["bla/bla", "hamlet/zz"]
     for s in probe:
@@ -159,18 +173,20 @@ def check_state(C, ents, created):
             if ch or sb:
                 bad("untyped-sid-has-children-or-siblings", [s], "none")
             continue
-        want_ch = {e for e in E_all if parent_of(e) == s and e != s}
+        want_ch = {e for e in E_all if "/" in e and parent_of(e) == s}
         got_ch = {str(c) for c in ch}
         if len(got_ch) != len(ch):
             bad("children-duplicates", [s, [str(c) for c in ch][:6]], "unique")
         is_leaf = ref.is_leaf_type(x.type)
+        if bool(x.is_leaf()) != is_leaf:
+            bad("is_leaf-differs-from-the-configured-leaf-key-of-the-basetype", [s, x.is_leaf()], is_leaf)
         if is_leaf:
             if ch:
                 bad("leaf-has-children", [s, sorted(got_ch)[:4]], [])
         elif got_ch != want_ch:
             sig = "children-differ"
             missing = want_ch - got_ch
-            if missing and not (got_ch - want_ch) and all(ref.natural(m)[0] and not C["prs"][c0].has_path(ref.natural(m)[0]) and ref.natural(m)[0] not in st.sources for m in missing):
+            if missing and not (got_ch - want_ch) and all(ref.natural(m)[0] and not pr.has_path(ref.natural(m)[0]) and ref.natural(m)[0] not in st.sources for m in missing):
                 sig += "/level-without-data-source"
             bad(sig, [s, sorted(got_ch)[:5]], sorted(want_ch)[:5])
         want_sb = {e for e in E_all if parent_of(e) == parent_of(s) and len(e.split("/")) == len(s.split("/"))}
@@ -183,7 +199,7 @@ def check_state(C, ents, created):
             p = Sid(e).parent
             if not p.exists():
                 sig = "existing-entity-without-existing-parent"
-                if p and not C["prs"][c0].has_path(p.type) and p.type not in st.sources:
+                if p and not pr.has_path(p.type) and p.type not in st.sources:
                     sig += "/parent-level-without-data-source"
                 bad(sig, [e, p.uri], "parent exists")
                 break
@@ -199,7 +215,46 @@ def plan(tier, seed):
     return {"shards": shards}
 
 
+def run_world(sh):
+    """The relational statements (exists / children / siblings / leaf) on one generated universe of whatever
+    configuration is loaded (used by C20: no assumption about key or type names)."""
+    from mc.ref.model import Conf
+    from mc import worlds, env
+    ref = Conf()
+    W = worlds.World(ref, worlds.universes(ref, "quick")["sparse"], "sparse")
+    W.materialize()
+    env.reset()
+    rec = Recorder(0, 1, sh["seed"])
+    cand = set()
+    for s in W.leaves:
+        parts = s.split("/")
+        for i in range(1, len(parts) + 1):
+            cand.add("/".join(parts[:i]))
+    for typ, src in W.store.sources.items():
+        keys = ref.keys(typ) if typ in ref.templates else []
+        for c in list(cand):
+            t = ref.natural(c)[0]
+            if t and keys and len(ref.keys(t)) == len(keys) - 1:
+                for v in src["values"]:
+                    if ref.natural(c + "/" + v)[0] == typ:
+                        cand.add(c + "/" + v)
+        if len(keys) == 1:
+            for v in src["values"]:
+                if ref.natural(v)[0] == typ:
+                    cand.add(v)
+    cand = {c for c in cand if ref.natural(c)[0]}
+    viols = check_relations(ref, W.prs[W.names[0]], W.store, cand)
+    rec.evaluations = rec.distinct = rec.nontrivial = len(cand)
+    rec.classes["sid-relations"] = len(cand)
+    rec.samples.append({"outcome": "sid-relations", "case": sorted(cand)[:3]})
+    for v in viols:
+        rec.violation(v["signature"], "world", {"universe": "sparse"}, v["observed"], v["expected"])
+    return rec.result()
+
+
 def run_shard(sh):
+    if sh.get("mode") == "world":
+        return run_world(sh)
     from mc import env, tree, bfs
     C = c15.ctx()
     ents = entities(C, sh["tier"])
@@ -280,6 +335,9 @@ def run_shard(sh):
 
 
 def replay_case(kind, case):
+    if kind == "world":
+        r = run_world({"seed": 0})
+        return [v for lst in r["violations"].values() for v in lst]
     from mc import env
     C = c15.ctx()
     ents = entities(C, case.get("tier", "thorough"))
